@@ -31,20 +31,175 @@ def for_property(prop, tier):
     return st
 
 
-MIRI_PROPS = set()
-ASAN_PROPS = set()
+MIRI_PROPS = {"C04", "C10", "C11", "C19", "C20"}
+ASAN_PROPS = {"C04", "C10", "C11"}
+NPROC = 16
 
 
-def miri_stage(**kw):
-    return {"name": "miri", "info": {}, "violations": [], "inconclusive": None}
+def _merge_result(res, r):
+    info = res["info"]
+    info["cases"] = info.get("cases", 0) + r.get("evaluations", 0)
+    info["violations_recorded"] = info.get("violations_recorded", 0) + r.get("violation_count", 0)
+    for k, v in r.get("calls", {}).items():
+        info.setdefault("library_calls_observed", {})
+        info["library_calls_observed"][k] = info["library_calls_observed"].get(k, 0) + v
+    for v in r.get("violations", []):
+        v = dict(v)
+        v["features"] = dict(v.get("features", {}), instrumentation=res["name"])
+        res["violations"].append(v)
 
 
-def asan_stage(**kw):
-    return {"name": "asan", "info": {}, "violations": [], "inconclusive": None}
+def miri_stage(prop, tier, seed, env, say, verif, repo, target, bin, **kw):
+    """Bounded subset of the history / view / accessor workloads under the Miri interpreter
+    (undefined behaviour reached inside std or dependencies once an unchecked cast is wrong,
+    invalid retagging of the &mut Vec handles, leaks).  16 single-threaded processes."""
+    t0 = time.time()
+    res = {"name": "miri", "info": {}, "violations": [], "inconclusive": None}
+    menv = dict(env, CARGO_TARGET_DIR=os.path.join(target, "miri"), MIRIFLAGS="-Zmiri-disable-isolation")
+    harness = os.path.join(verif, "harness")
+    base = ["cargo", "+nightly", "miri", "run", "--offline", "--quiet", "--manifest-path", os.path.join(harness, "Cargo.toml"), "--"]
+    try:
+        w = subprocess.run(base + ["--version"], cwd=harness, env=menv, stdout=subprocess.PIPE, stderr=subprocess.PIPE, text=True, timeout=3600)
+    except subprocess.TimeoutExpired:
+        res["inconclusive"] = "building for Miri timed out"
+        return res
+    if w.returncode != 0:
+        res["inconclusive"] = "Miri build/tool failure: %s" % w.stderr[-300:].replace("\n", " | ")
+        return res
+    procs = []
+    for i in range(NPROC):
+        out = os.path.join(target, "miri-%s-%d.json" % (prop, i))
+        trace = os.path.join(target, "miri-%s-%d.trace" % (prop, i))
+        for f in (out, trace):
+            if os.path.exists(f):
+                os.remove(f)
+        cmd = base + [prop, "--tier", "tiny", "--seed", str(seed), "--threads", "1", "--shards", str(NPROC), "--only-shard", str(i), "--skip-self-test", "--out", out, "--trace", trace]
+        procs.append((i, out, trace, subprocess.Popen(cmd, cwd=harness, env=menv, stdout=subprocess.PIPE, stderr=subprocess.PIPE, text=True)))
+    for i, out, trace, p in procs:
+        try:
+            so, se = p.communicate(timeout=3 * 3600)
+        except subprocess.TimeoutExpired:
+            p.kill()
+            res["inconclusive"] = "a Miri shard timed out"
+            continue
+        if p.returncode == 0 and os.path.exists(out):
+            _merge_result(res, json.load(open(out)))
+            os.remove(out)
+        elif "Undefined Behavior" in se or "memory leaked" in se or "error: " in se and "unsupported operation" not in se:
+            case = None
+            try:
+                case = json.load(open(trace))
+            except Exception:
+                pass
+            first = [l for l in se.splitlines() if l.startswith("error")][:2]
+            where = [l.strip() for l in se.splitlines() if "-->" in l][:4]
+            res["violations"].append({"clause": "%s.miri" % prop, "features": {"instrumentation": "miri", "kind": "undefined-behaviour" if "Undefined Behavior" in se else "miri-error"},
+                                      "case": case or {"mon": "?", "a": [], "n": []}, "detail": "Miri reports: %s ; at %s" % (" / ".join(first), " <- ".join(where))})
+        else:
+            res["inconclusive"] = "Miri shard %d failed without a UB report: %s" % (i, se[-300:].replace("\n", " | "))
+        if os.path.exists(trace):
+            os.remove(trace)
+    res["info"]["wall_s"] = round(time.time() - t0, 1)
+    res["info"]["processes"] = NPROC
+    if res["info"].get("cases", 0) == 0 and not res["violations"] and not res["inconclusive"]:
+        res["inconclusive"] = "Miri observed no case"
+    return res
 
 
-def c01_config_b(**kw):
-    return {"name": "c01-config-b", "info": {}, "violations": [], "inconclusive": None}
+def asan_stage(prop, tier, seed, env, say, verif, repo, target, bin, **kw):
+    """The quick workload of the history monitors under AddressSanitizer (heap overflow /
+    use-after-free / leak backstop), built with the nightly toolchain."""
+    t0 = time.time()
+    res = {"name": "asan", "info": {}, "violations": [], "inconclusive": None}
+    aenv = dict(env, CARGO_TARGET_DIR=os.path.join(target, "asan"), RUSTFLAGS="-Zsanitizer=address -Cforce-frame-pointers=yes")
+    harness = os.path.join(verif, "harness")
+    b = subprocess.run(["cargo", "+nightly", "build", "--release", "--offline", "--quiet", "--target", "x86_64-unknown-linux-gnu"], cwd=harness, env=aenv, stdout=subprocess.PIPE, stderr=subprocess.PIPE, text=True)
+    exe = os.path.join(target, "asan", "x86_64-unknown-linux-gnu", "release", "iref-verif")
+    if b.returncode != 0 or not os.path.exists(exe):
+        res["inconclusive"] = "ASan build failed: %s" % b.stderr[-300:].replace("\n", " | ")
+        return res
+    out = os.path.join(target, "asan-%s.json" % prop)
+    renv = dict(env, ASAN_OPTIONS="halt_on_error=1:detect_leaks=1:abort_on_error=0:symbolize=1")
+    for attempt, extra in enumerate(([], ["--threads", "1", "--trace", os.path.join(target, "asan-%s.trace" % prop)])):
+        if os.path.exists(out):
+            os.remove(out)
+        try:
+            p = subprocess.run([exe, prop, "--tier", "quick", "--seed", str(seed), "--out", out] + extra, cwd=verif, env=renv, stdout=subprocess.PIPE, stderr=subprocess.PIPE, text=True, timeout=3 * 3600)
+        except subprocess.TimeoutExpired:
+            res["inconclusive"] = "the ASan run timed out"
+            return res
+        if p.returncode == 0 and os.path.exists(out):
+            if attempt == 0:
+                _merge_result(res, json.load(open(out)))
+            else:
+                res["inconclusive"] = "an AddressSanitizer report did not reproduce single-threaded"
+            os.remove(out)
+            break
+        if "AddressSanitizer" in p.stderr or "LeakSanitizer" in p.stderr:
+            if attempt == 0:
+                continue  # re-run single-threaded with a trace to name the case
+            case = None
+            try:
+                case = json.load(open(extra[-1]))
+            except Exception:
+                pass
+            head = [l for l in p.stderr.splitlines() if "ERROR:" in l or "SUMMARY:" in l][:2]
+            res["violations"].append({"clause": "%s.asan" % prop, "features": {"instrumentation": "asan"}, "case": case or {"mon": "?", "a": [], "n": []}, "detail": "AddressSanitizer: %s" % " / ".join(head)})
+            break
+        res["inconclusive"] = "the ASan binary failed without a sanitizer report (exit %s): %s" % (p.returncode, p.stderr[-200:].replace("\n", " | "))
+        break
+    res["info"]["wall_s"] = round(time.time() - t0, 1)
+    return res
+
+
+def c01_config_b(prop, tier, seed, env, say, verif, repo, target, bin, **kw):
+    """Configuration B of C01: a scratch copy of the working tree with the automata caches
+    removed, so that the derive recompiles every automaton from grammar.abnf + entry_point;
+    exposes a grammar or entry-point edit that a stale-but-hash-valid cache masks."""
+    import tempfile
+    t0 = time.time()
+    res = {"name": "c01-config-b", "info": {}, "violations": [], "inconclusive": None}
+    scratch = tempfile.mkdtemp(prefix="iref-verif-b-")
+    try:
+        srepo = os.path.join(scratch, "repo")
+        shutil.copytree(repo, srepo, ignore=shutil.ignore_patterns("target", ".git"))
+        adir = os.path.join(srepo, "crates", "core", "automata")
+        committed = {}
+        for root, _d, names in os.walk(adir):
+            for n in names:
+                f = os.path.join(root, n)
+                committed[os.path.relpath(f, adir)] = open(f, "rb").read()
+                os.remove(f)
+        sh = os.path.join(scratch, "harness")
+        shutil.copytree(os.path.join(verif, "harness"), sh, ignore=shutil.ignore_patterns("target"))
+        ct = open(os.path.join(sh, "Cargo.toml")).read().replace('path = "/repo"', 'path = "%s"' % srepo)
+        open(os.path.join(sh, "Cargo.toml"), "w").write(ct)
+        benv = dict(env, CARGO_TARGET_DIR=os.path.join(scratch, "target"))
+        b = subprocess.run(["cargo", "build", "--release", "--offline", "--quiet"], cwd=sh, env=benv, stdout=subprocess.PIPE, stderr=subprocess.PIPE, text=True)
+        exe = os.path.join(scratch, "target", "release", "iref-verif")
+        if b.returncode != 0 or not os.path.exists(exe):
+            res["inconclusive"] = "configuration B does not build: %s" % b.stderr[-300:].replace("\n", " | ")
+            return res
+        differing = []
+        for rel, data in committed.items():
+            f = os.path.join(adir, rel)
+            if not os.path.exists(f) or open(f, "rb").read() != data:
+                differing.append(rel)
+        res["info"]["regenerated_caches_differing_from_committed"] = differing
+        out = os.path.join(scratch, "result.json")
+        p = subprocess.run([exe, "C01", "--tier", "thorough" if differing else "quick", "--seed", str(seed), "--out", out], cwd=verif, env=env, stdout=subprocess.PIPE, stderr=subprocess.PIPE, text=True)
+        if p.returncode != 0 or not os.path.exists(out):
+            res["inconclusive"] = "configuration B worker failed: %s" % (p.stdout + p.stderr)[-300:]
+            return res
+        r = json.load(open(out))
+        _merge_result(res, r)
+        for v in res["violations"]:
+            v["features"]["configuration"] = "B (automata recompiled from grammar.abnf)"
+            v["detail"] = "[configuration B: caches removed, automata recompiled from the grammar] " + v["detail"]
+    finally:
+        shutil.rmtree(scratch, ignore_errors=True)
+    res["info"]["wall_s"] = round(time.time() - t0, 1)
+    return res
 
 
 # --------------------------------------------------------------------------- C17
